@@ -53,7 +53,7 @@ fn a(s: &str) -> Sexp {
 
 /// F4: a command that fails (or may fail) while executing. Returns op text.
 pub fn gen_f4(g: &mut Gen) -> Vec<String> {
-    let kind = g.rng.weighted(&[5, 4, 2, 2, 2, 2, 2]);
+    let kind = g.rng.weighted(&[5, 4, 2, 2, 2, 2, 2, 1, 1]);
     match kind {
         0 => {
             // rule that panics after staging other actions
@@ -151,6 +151,22 @@ pub fn gen_f4(g: &mut Gen) -> Vec<String> {
                 format!("(set ({name} {k}) 5)"),
                 format!("(set ({name} {k}) 3)"),
                 format!("(set ({name} {k}) 4)"),
+            ]
+        }
+        7 => {
+            // combined ruleset with a member that does not exist
+            let n = g.rng.below(1000);
+            vec![
+                format!("(unstable-combined-ruleset cdang{n} nosuchmember{n})"),
+                format!("(run cdang{n} 1)"),
+            ]
+        }
+        8 => {
+            // combined ruleset that contains itself
+            let n = g.rng.below(1000);
+            vec![
+                format!("(unstable-combined-ruleset cself{n} cself{n})"),
+                format!("(run-schedule (run cself{n}))"),
             ]
         }
         _ => {
